@@ -147,12 +147,29 @@ func FmtMetrics(m map[string]float64) string {
 // responses, the body) has been read.  headOnly stops after the head: upgrade and legacy
 // accept responses have no delimited body.
 func (w *World) DoTLS(r *HTTPReq, headOnly bool) *HTTPResult {
-	res := &HTTPResult{}
-	done := false
+	p := w.StartTLS(r, headOnly)
+	w.S.Run(func() bool { return p.Done }, 40000, 60*time.Second)
+	if !p.Done {
+		p.Res.Timeout = true
+	}
+	return p.Res
+}
+
+// PendingTLS is a TLS request in flight (goroutine-backed client).
+type PendingTLS struct {
+	Res  *HTTPResult
+	Done bool
+}
+
+// StartTLS starts a request over TLS without waiting for the response; several may be in
+// flight at once.  Done is set on the scheduler goroutine.
+func (w *World) StartTLS(r *HTTPReq, headOnly bool) *PendingTLS {
+	p := &PendingTLS{Res: &HTTPResult{}}
+	res := p.Res
 	raw := r.Bytes()
 	go func() {
 		var out HTTPResult
-		defer func() { w.S.Call("tlsdone "+r.Name, func() { *res, done = out, true }) }()
+		defer func() { w.S.Call("tlsdone "+r.Name, func() { *res, p.Done = out, true }) }()
 		c, err := w.S.Dial("tcp", r.From, w.GW.Addr, 0)
 		if err != nil {
 			out.Err = err.Error()
@@ -183,11 +200,7 @@ func (w *World) DoTLS(r *HTTPReq, headOnly bool) *HTTPResult {
 			out.Body, _ = io.ReadAll(resp.Body)
 		}
 	}()
-	w.S.Run(func() bool { return done }, 40000, 60*time.Second)
-	if !done {
-		res.Timeout = true
-	}
-	return res
+	return p
 }
 
 // Pending is a request in flight on a scheduler-owned connection.
